@@ -8,6 +8,8 @@
 //!   ptxt f ver defs hex               parse arbitrary ASCII sample column text both ways
 //!   span ver pos reflen end sv lens   variant_end/variant_span: on the built RecordBuf, on the re-read
 //!                                     RecordBuf and on the lazy record
+//!   line ver infodefs fmtdefs ns rec ftab valid   a whole record: written line, eager and lazy re-read, spans
+//!   ltxt ver infodefs fmtdefs ns hextext ftab     arbitrary line text through both readers (see c09_line.rs)
 //! Implementation-only oracles (obs "-"):
 //!   rec  seed ver feat                generated header + record: write/read equality, lazy accessors
 //!                                     vs eager, spans, text fixed point
@@ -38,6 +40,8 @@ mod val;
 use val::*;
 #[path = "../shared/c09_rec.rs"]
 mod rec;
+#[path = "../shared/c09_line.rs"]
+mod line;
 
 // -------------------------------------------------------------------------------------------
 // plumbing around the real reader / writer
@@ -512,6 +516,8 @@ fn run(c: &Case) -> Obs {
         "smp" => run_smp(c),
         "ptxt" => run_ptxt(c),
         "span" => run_span(c),
+        "line" => line::run_line(c),
+        "ltxt" => line::run_ltxt(c),
         "rec" => rec::run_rec(c),
         "hdr" => rec::run_hdr(c),
         "bad" => rec::run_bad(c),
@@ -521,7 +527,15 @@ fn run(c: &Case) -> Obs {
 }
 
 fn generate(rng: &mut Rng, tier: &str, w: &mut CaseWriter) {
-    rec::generate(rng, tier, w)
+    rec::generate(rng, tier, w);
+    // whole record lines against NV.Vcf.Line
+    let thorough = tier == "thorough";
+    let n = if thorough { 6000 } else { 500 };
+    for i in 0..n {
+        let mode = if i % 3 == 2 { 1 } else { 0 };
+        line::gen_line(rng, rec::VERS[i % 4], mode, w);
+    }
+    line::gen_ltxt(rng, w, if thorough { 3000 } else { 250 });
 }
 
 fn main() {
